@@ -35,8 +35,8 @@ def translate():
         fails.append("server.rs: check_limits no longer refuses at nb_connections >= max_connections")
     if not re.search(r"let threshold = 10 \+ 2 \* self\.max_connections;", sv):
         fails.append("server.rs: accept_slab_threshold is no longer 10 + 2 * max_connections")
-    if not re.search(r"self\.slab\.len\(\) >= self\.accept_slab_threshold\(\)", sv):
-        fails.append("server.rs: at_capacity is no longer slab.len() >= accept_slab_threshold()")
+    if not re.search(r"self\.slab\.len\(\) >= threshold \+ not_sessions\.saturating_sub\(10\)", sv):
+        fails.append("server.rs: at_capacity is no longer slab.len() >= threshold + not_sessions.saturating_sub(10)")
     if not re.search(r"if !self\.can_accept && self\.nb_connections < \(self\.max_connections \* 90 / 100\)\.max\(1\) \{", sv):
         fails.append("server.rs: decr no longer re-enables can_accept at nb_connections < (max_connections*90/100).max(1) (model: resume_threshold)")
     if not re.search(r"\*count = count\.saturating_sub\(1\);\s*if \*count == 0 \{\s*inner\.remove\(\);", sv):
@@ -63,8 +63,12 @@ def history(rng, cid):
             ops.append(["track", rng.choice(toks), c, i, 1 if ov else 0, rng.choice([0, 1, 2, 3]) if ov else 0])
         elif x < 0.80:
             ops.append(["setlimit", rng.choice([0, 1, 1, 2, 3])])
-        elif x < 0.85:
-            ops.append(["fill", rng.choice([1, 2, 9 + 2 * mx, 10 + 2 * mx, 11 + 2 * mx])])
+        elif x < 0.83:
+            ops.append(["fill", rng.choice([1, 2, 4, 9, 10, 11, 9 + 2 * mx, 10 + 2 * mx, 11 + 2 * mx])])     # listeners, system entries
+        elif x < 0.86:
+            ops.append(["backfill", rng.choice([1, 2, 2 * mx - 1, 2 * mx, 2 * mx + 1, 9 + 2 * mx, 10 + 2 * mx])])  # backend tokens
+        elif x < 0.88:
+            ops.append(["unbackfill", rng.choice([1, 2, 50])])
         elif x < 0.90:
             ops.append(["unfill", rng.choice([1, 2, 50])])
         elif x < 0.94:
@@ -72,7 +76,8 @@ def history(rng, cid):
         else:
             ops.append(["dump"])
     ops.append(["dump"])
-    ops.append(["unfill", 1000])
+    ops.append(["unfill", rng.choice([0, 1000])])
+    ops.append(["unbackfill", 1000])
     for t in toks:
         ops.append(["close", t])
     ops.append(["dump"])
